@@ -1,6 +1,6 @@
 """C01 -- option values follow the documented precedence and visibility rules.
 
-Enumerates every program of five families x every assignment of user values over small domains (including
+Enumerates every program of seven families x every assignment of user values over small domains (including
 assignments to hidden options and out-of-range numbers); a fresh real Kconfig instance per (program, assignment).
 Oracle 1: reference semantics (mck/refsem.py) for value / visibility / assignable.
 Oracle 2: differential -- all outputs for assignment A equal the outputs for A minus the assignments to options
@@ -20,8 +20,11 @@ from ..kgen import And, Cfg, Choice, If, L, Menu, Not, Or, Program, Rel, S
 ID = "C01"
 LEVEL = "exploration"
 RULE = (
-    "all programs of families prec(int,hex,string,float) / bool / nest / expr / multi (explicit nested loops over slot "
-    "alphabets, see DESIGN.md C01) x all assignments of user values over the per-type domains; one fresh Kconfig per "
+    "all programs of families prec(int,hex,string,float) / bool / nest / expr / multi / choice / rep (explicit nested loops "
+    "over slot alphabets, see DESIGN.md C01; rep = every repeatable property in repeated form: 0..3 `visible if` and "
+    "`depends on` lines per menu in every polarity and both line orders, two nested menus with 0..2 (thorough 0..3) lines "
+    "each, 2..3 `depends on` lines on options and choices, 3..4 defaults, 2..3 mutually exclusive ranges, several "
+    "select/imply per source and per target) x all assignments of user values over the per-type domains; one fresh Kconfig per "
     "(program, assignment). A case is counted in distinct_nontrivial once per distinct (program, value vector, "
     "visibility vector) in which at least one option is hidden or carries a user value."
 )
@@ -373,17 +376,177 @@ def fam_choice(tier: str) -> Iterator[Tuple[str, Program]]:
             yield ("choice", Program(children=kids))
 
 
-FAMILIES = (fam_prec, fam_bool, fam_nest, fam_expr, fam_multi, fam_choice)
+# --------------------------------------------------------------------------------------------------
+# repeated properties: every property the language allows several times on ONE entry and whose repetitions combine in a
+# documented way -- `visible if` / `depends on` lines (all of them have to hold), `default` (first whose condition holds),
+# `select` / `imply` (each one acts), `range` (documented as repeatable, the combination is not: only ranges with mutually
+# exclusive conditions are generated, on which every reading agrees)
+# --------------------------------------------------------------------------------------------------
+
+
+def _pols(n: int, full: bool = True) -> List[Tuple[bool, ...]]:
+    if full:
+        return list(itertools.product((True, False), repeat=n))
+    out = [(True,) * n]
+    if n:
+        out.append((False,) * n)
+    if n > 1:
+        out.append(tuple(i % 2 == 0 for i in range(n)))
+    return out
+
+
+def _conds(ctrls: List[str], pol: Tuple[bool, ...]) -> List[tuple]:
+    return [S(x) if p else Not(S(x)) for x, p in zip(ctrls, pol)]
+
+
+def _probe(content: str) -> Tuple[List[Any], List[Any]]:
+    """(entries inside the wrapper, followers outside it)"""
+    if content == "int":
+        return [Cfg("P", "int", prompt="p", defaults=[(L("5"), None)], ranges=[(L("1"), L("9"), None)])], []
+    fol = Cfg("F", "int", defaults=[(L("3"), S("P")), (L("1"), None)])
+    if content == "bool":
+        return [Cfg("P", "bool", prompt="p", defaults=[(L("n"), None)])], [fol]
+    return [Choice(prompt="c", children=[Cfg("Q", "bool", prompt="q"), Cfg("P", "bool", prompt="p")])], [fol]
+
+
+def _reorder_headers(files: Dict[str, str]) -> Optional[Dict[str, str]]:
+    """the same program with the option lines of every menu written in the opposite order (`visible if` lines before the
+    `depends on` lines, later lines first): conjunction does not depend on the order.  None if nothing changes."""
+    lines = files["Kconfig"].split("\n")
+    out: List[str] = []
+    i = 0
+    changed = False
+    while i < len(lines):
+        out.append(lines[i])
+        if lines[i].strip().startswith('menu "'):
+            j = i + 1
+            while j < len(lines) and lines[j].strip():
+                j += 1
+            hdr = lines[i + 1 : j]
+            rev = list(reversed(hdr))
+            changed |= rev != hdr
+            out.extend(rev)
+            i = j
+            continue
+        i += 1
+    if not changed:
+        return None
+    new = dict(files)
+    new["Kconfig"] = "\n".join(out)
+    return new
+
+
+def fam_rep(tier: str) -> Iterator[tuple]:
+    quick = tier == "quick"
+    # (a) ONE menu with kd `depends on` lines and kv `visible if` lines, kd + kv <= 3, every polarity of every line
+    for kd, kv in itertools.product(range(4), repeat=2):
+        n = kd + kv
+        if n > 3:
+            continue
+        ctrls = [f"X{i}" for i in range(n)]
+        for pol in _pols(n):
+            for content in ("bool", "int", "choice"):
+                inner, fol = _probe(content)
+                cs = _conds(ctrls, pol)
+                m = Menu(title="m", depends=cs[:kd], visible_if=cs[kd:], children=inner)
+                prog = Program(children=[aux(x) for x in ctrls] + [m] + fol)
+                yield ("rep-menu", prog)
+                if n >= 2:
+                    alt = _reorder_headers(kgen.render(prog))
+                    if alt is not None:
+                        yield ("rep-menu", prog, alt)
+    # (b) two nested menus, each with 0..K lines of its own kind
+    K = 2 if quick else 3
+    for kinds in (("vis", "vis"), ("vis", "dep"), ("dep", "vis")):
+        for ko, ki in itertools.product(range(K + 1), repeat=2):
+            if ko + ki < 2:
+                continue
+            n = ko + ki
+            ctrls = [f"X{i}" for i in range(n)]
+            for pol in _pols(n, full=n <= 4):
+                for content in ("bool", "int"):
+                    inner, fol = _probe(content)
+                    cs = _conds(ctrls, pol)
+                    mi = Menu(title="m1", children=inner, **{"visible_if" if kinds[1] == "vis" else "depends": cs[ko:]})
+                    mo = Menu(title="m0", children=[mi], **{"visible_if" if kinds[0] == "vis" else "depends": cs[:ko]})
+                    yield ("rep-nestmenu", Program(children=[aux(x) for x in ctrls] + [mo] + fol))
+    # (c) k `depends on` lines on an option (its prompt, default, range, select all inherit every line) and on a choice
+    for k in (2, 3):
+        ctrls = [f"X{i}" for i in range(k)]
+        for pol in _pols(k):
+            cs = _conds(ctrls, pol)
+            tb = Cfg("T", "bool", prompt="t", depends=list(cs), defaults=[(L("y"), None)], selects=[("TB", None)], implies=[("TC", None)])
+            yield ("rep-depends", Program(children=[aux(x) for x in ctrls] + [tb, Cfg("TB", "bool", prompt="tb"), Cfg("TC", "bool", prompt="tc")]))
+            ti = Cfg("T", "int", prompt="t", depends=list(cs), defaults=[(L("5"), None)], ranges=[(L("1"), L("9"), None)])
+            yield ("rep-depends", Program(children=[aux(x) for x in ctrls] + [ti]))
+            ch = Choice(prompt="c", depends=list(cs), children=[Cfg("Q", "bool", prompt="q"), Cfg("P", "bool", prompt="p")])
+            yield ("rep-depends", Program(children=[aux(x) for x in ctrls] + [ch, _probe("bool")[1][0]]))
+    # (d) several ranges with mutually exclusive conditions
+    RL = {"int": ("2", "4", "6", "9", "1", "3"), "hex": ("0x2", "0x6", "0x1a", "0x2b", "0x1", "0x5"), "float": ("0.25", "0.75", "4.5", "2000.0", "0.5", "7.5")}
+    for t in ("int", "hex", "float"):
+        a, b, c, d, e, f = RL[t]
+        C, E = S("C"), S("E")
+        for rs in (
+            [(a, b, C), (c, d, Not(C))],
+            [(a, b, And(C, Not(E))), (c, d, And(E, Not(C)))],
+            [(a, b, And(C, E)), (c, d, And(C, Not(E))), (e, f, Not(C))],
+        ):
+            T = Cfg("T", t, prompt="t", ranges=[(L(lo), L(hi), cnd) for lo, hi, cnd in rs], defaults=[(L(LIT[t]["fb"]), None)])
+            yield ("rep-range", Program(children=[aux("C"), aux("E"), T]))
+    # (e) chains of three / four defaults: the first whose condition holds
+    DV = {"bool": ("y", "n", "y", "n"), "int": ("5", "8", "3", "0"), "hex": ("0x10", "0x20", "0x3", "0x0"), "string": ('"one"', '"two"', '""', '"four"'), "float": ("1.5", "2.5", "0.5", "3.0")}
+    for t, (v1, v2, v3, v4) in DV.items():
+        C, E = S("C"), S("E")
+        for ds in (
+            [(v1, C), (v2, E), (v3, None)],
+            [(v1, C), (v2, None), (v3, E)],
+            [(v1, And(C, E)), (v2, C), (v3, E), (v4, None)],
+            [(v1, Not(C)), (v2, Not(E)), (v3, C)] + ([(v4, None)] if t != "bool" and t != "string" else []),
+        ):
+            for pc in (None, "A"):
+                T = Cfg("T", t, prompt="t", prompt_cond=S(pc) if pc else None, defaults=[(L(v), cnd) for v, cnd in ds])
+                yield ("rep-default", Program(children=([aux("A")] if pc else []) + [aux("C"), aux("E"), T]))
+    # (f) several select / imply: one source with two of them, two sources on one target
+    for kind in ("selects", "implies"):
+        for c1, c2 in itertools.product((None, "C"), repeat=2):
+            for tdep in (None, "D"):
+                def tgt(nm):
+                    return Cfg(nm, "bool", prompt=nm.lower(), depends=[S(tdep)] if tdep else [])
+                pre = ([aux("C")] if "C" in (c1, c2) else []) + ([aux("D")] if tdep else [])
+                s1 = aux("S1")
+                getattr(s1, kind).extend([("T1", S(c1) if c1 else None), ("T2", S(c2) if c2 else None)])
+                yield ("rep-revdep", Program(children=pre + [s1, tgt("T1"), tgt("T2")]))
+                s1, s2 = aux("S1"), aux("S2")
+                getattr(s1, kind).append(("T1", S(c1) if c1 else None))
+                getattr(s2, kind).append(("T1", S(c2) if c2 else None))
+                yield ("rep-revdep", Program(children=pre + [s1, s2, tgt("T1")]))
+    for c1, c2 in itertools.product((None, "C"), repeat=2):
+        s1 = aux("S1")
+        s1.selects.append(("T1", S(c1) if c1 else None))
+        s1.implies.append(("T1", S(c2) if c2 else None))
+        s1.implies.append(("T2", None))
+        s1.selects.append(("T3", None))
+        pre = [aux("C")] if "C" in (c1, c2) else []
+        yield ("rep-revdep", Program(children=pre + [aux("D"), s1] + [Cfg(nm, "bool", prompt=nm.lower(), depends=[S("D")]) for nm in ("T1", "T2", "T3")]))
+
+
+FAMILIES = (fam_prec, fam_bool, fam_nest, fam_expr, fam_multi, fam_choice, fam_rep)
 
 EXPR_DOM = {"A": ["n", "y"], "B": ["n", "y"], "N": [None, "3", "7"], "S": [None, "v1", "3"], "S2": [None, "a b"], "H": [None, "0x5", "1f"], "P": [None, "y"]}
 
 
 def items(tier: str, seed: int):
     out = []
-    for fam in FAMILIES:
-        for name, prog in fam(tier):
-            out.append((name, kgen.render(prog), _ser(prog)))
+    for name, files, prog in all_programs(tier):
+        out.append((name, files, _ser(prog)))
     return out
+
+
+def all_programs(tier: str) -> Iterator[Tuple[str, Dict[str, str], Program]]:
+    """a family yields (name, AST) or (name, AST, files): the latter when the text is not the canonical rendering"""
+    for fam in FAMILIES:
+        for t in fam(tier):
+            yield (t[0], t[2] if len(t) > 2 else kgen.render(t[1]), t[1])
 
 
 # programs are shipped to workers as pickled AST (dataclasses pickle fine)
@@ -403,6 +566,8 @@ def domains(fam: str, model: refsem.Model) -> List[Tuple[str, List[Optional[str]
             out.append((n, [None, "7"]))
         elif fam == "expr":
             out.append((n, EXPR_DOM[n]))
+        elif fam.startswith("rep-") and re.fullmatch(r"X\d", n):
+            out.append((n, [None, "y"]))  # condition symbols without default: unset = n, y; the probes keep the full domain
         else:
             out.append((n, DOM[si.type]))
     return out
@@ -646,19 +811,13 @@ def replay(case) -> List[dict]:
     # the AST is rebuilt from the registered families by matching the program text
     fam = case["family"]
     text = case["program"]
-    for f in FAMILIES:
-        for name, prog in f("thorough"):
-            if name == fam and kgen.render(prog)["Kconfig"] == text:
+    for tier in ("thorough", "quick"):
+        for name, files, prog in all_programs(tier):
+            if name == fam and files["Kconfig"] == text:
                 r = common.Result()
                 if case.get("live_walk"):
                     check_program(fam, case["files"], prog, r)
                     return [v for v in r.viols if v["case"].get("live_walk")]
-                check_program(fam, case["files"], prog, r, only_assign=tuple(case["assign"]))
-                return r.viols
-    for f in FAMILIES:
-        for name, prog in f("quick"):
-            if name == fam and kgen.render(prog)["Kconfig"] == text:
-                r = common.Result()
                 check_program(fam, case["files"], prog, r, only_assign=tuple(case["assign"]))
                 return r.viols
     raise SystemExit("replay: program not found in the registered families")
